@@ -163,3 +163,4 @@ def _mk_gbound(lmax, tier='quick'):
 
 _mk_gbound(1)
 _mk_gbound(2, 'thorough')
+_mk_gbound(3, 'thorough')
